@@ -163,6 +163,63 @@ def written_tables(ck):
     shutil.rmtree(d, ignore_errors=True)
 
 
+def written_many_samples(ck):
+    """Twelve samples named S1..S12, stored in the order the loader gives them (S1, S10, S11, S12, S2, ...): the CCFs the
+    map command and the topology archive WRITE for a sample must attain that sample's optimum (TLC, GridOracle.tla) -
+    i.e. every column of values must be written under the name of the sample it was computed for."""
+    import contextlib
+    import io
+    import os
+    import shutil
+    from phyclone.process_trace import write_map_results, write_topology_report
+    from phyclone.data.base import DataPoint
+    from .. import outputs
+    n, G, D = 2, 5, 12
+    rs = np.random.RandomState(77 + ck.seed)
+    lltab = rs.randint(0, 10, size=(n, D, G))
+    for i in range(D):          # a distinct, sharp optimum per sample
+        lltab[0, i, :] = 0
+        lltab[0, i, 1 + (i % 4)] = 9 + i
+        lltab[1, i, :] = 0
+        lltab[1, i, (i // 4) % 2] = 5
+    oracle, r = gridoracle.run_oracle("c10_many_samples", np.ones_like(lltab), lltab=lltab, outl=False, check_def=False)
+    ck.add_tlc("GridOracle max-product N=%d G=%d D=%d (twelve samples, written tables)" % (n, G, D), r)
+    samples = sorted("S%d" % (i + 1) for i in range(D))
+    data = [DataPoint(d, np.ascontiguousarray(lltab[d].astype(float)), name="m%d" % d) for d in range(n)]
+    d_ = env.scratch("c10_written12")
+    for fam in ([[0, 1], [1]], [[0], [1]]):
+        key = absstate.canon({"f": fam, "o": []})
+        best = list(oracle[key]["best"])
+        tp = os.path.join(d_, "trace.pkl.gz")
+        outputs.write_trace_file(tp, [(0, [(key, -3.0, 0), (key, -2.5, 1)])], data, samples)
+        tf, nf, ap = os.path.join(d_, "map.tsv"), os.path.join(d_, "map.nwk"), os.path.join(d_, "arch.tar.gz")
+        with contextlib.redirect_stdout(io.StringIO()):
+            write_map_results(tp, tf, nf)
+            write_topology_report(tp, os.path.join(d_, "rep.tsv"), topologies_archive=ap)
+        for label, table in [("map", outputs.read_table(tf))] + [("archive " + k, t) for k, (t, w) in outputs.read_archive(ap).items()]:
+            ck.evaluations += 1
+            for i, s_ in enumerate(samples):
+                rows = table[table["sample_id"] == s_]
+                rep = {"state": absstate.to_json(key), "output": label, "sample": s_, "position_in_trace": i}
+                if len(rows) != n:
+                    ck.violation("C10|written12|rows", "%s: sample %s has %d rows for %d mutations" % (label, s_, len(rows), n), rep)
+                    break
+                score = 0
+                for _, row in rows.iterrows():
+                    dd = int(str(row["mutation_id"])[1:])
+                    v = float(row["ccf"]) * (G - 1)
+                    if abs(v - round(v)) > 1e-9:
+                        score = None
+                        break
+                    score += int(lltab[dd][i][int(round(v))])
+                if score != best[i]:
+                    ck.violation("C10|written12|not_optimal", "%s, forest %s: the CCFs written for sample %s score %s on that sample's likelihoods, the maximum over feasible assignments is %d" % (
+                        label, absstate.key_str(key), s_, score, best[i]), rep)
+                    break
+        ck.nontrivial("written12:" + absstate.key_str(key))
+    shutil.rmtree(d_, ignore_errors=True)
+
+
 def wide_grid_part(ck):
     """A grid of 301 points with optima beyond index 255 (grid indices must survive whatever integer type stores them).
     TLC's oracle does not reach this grid size; for the two 2-clone forests the definitional optimum (proved equal to the
@@ -207,6 +264,7 @@ def run(corrupt=None):
     part(ck, 4, 4, 2, ck.seed, 0, lltab=absent, label="_absent")
     wide_grid_part(ck)
     written_tables(ck)
+    written_many_samples(ck)
     ck.rule = ("every forest (no outliers) on <= 4-5 data points with integer log-likelihood tables drawn from 0..hi (many ties), three "
                "construction histories each; non-trivial = forests with > 1 clone")
     ck.exhaustive = True
